@@ -474,6 +474,37 @@ fn observe_parse(src: &str) -> Option<ParseObs> {
     .ok()
 }
 
+/// Light observation for the exhaustive families: number of errors, first error, shape hash (only
+/// computed when asked for), text of the tree equals the input, every error range inside the text.
+/// No leaf list, no copy of the green tree.
+struct LightObs {
+    n_errors: usize,
+    first_error: Option<(usize, usize, String)>,
+    shape: u64,
+    text_eq: bool,
+    errors_inside: bool,
+}
+
+fn observe_light(src: &str, want_shape: bool) -> Option<LightObs> {
+    catch_unwind(AssertUnwindSafe(|| {
+        let p = parse(src);
+        let root = p.syntax();
+        let errs = p.errors();
+        let first_error = errs.first().map(|e| (usize::from(e.range.start()), usize::from(e.range.end()), e.message.clone()));
+        let errors_inside = errs.iter().all(|e| e.range.start() <= e.range.end() && usize::from(e.range.end()) <= src.len());
+        let text_eq = usize::from(root.text_range().end()) == src.len() && root.text() == src;
+        let shape = if want_shape { dump_tree(&root).shape } else { 0 };
+        LightObs {
+            n_errors: errs.len(),
+            first_error,
+            shape,
+            text_eq,
+            errors_inside,
+        }
+    }))
+    .ok()
+}
+
 /// One inserted piece of trivia at a token boundary (byte offset in the original text).
 type Insertion = (usize, &'static str);
 
@@ -494,11 +525,93 @@ fn apply_insertions(src: &str, ins: &[Insertion]) -> String {
     out
 }
 
-fn significant(lang: &Lang, src: &str, toks: &[(u16, usize, usize)]) -> Vec<(u16, String)> {
+/// The texts of the significant (non-trivia) tokens, in order.  An insertion of trivia at a token
+/// boundary is "clean" when these texts are untouched (an inserted piece may otherwise fuse with its
+/// neighbour, e.g. `/` + `/* c */` = `//* c */`).  The token KINDS are deliberately not part of the
+/// criterion: a lexer that classifies the same word differently depending on the trivia next to it
+/// (`cfg.ON` vs `cfg. ON`) changes the tree shape, which is exactly what the clause forbids - such an
+/// insertion must be parsed and compared, not skipped.
+fn significant(lang: &Lang, src: &str, toks: &[(u16, usize, usize)]) -> Vec<String> {
     toks.iter()
         .filter(|t| !lang.is_trivia(t.0))
-        .map(|t| (t.0, src[t.1..t.2].to_string()))
+        .map(|t| src[t.1..t.2].to_string())
         .collect()
+}
+
+/// Which boundaries of a text receive insertions.
+#[derive(Clone, Copy)]
+enum Bounds {
+    /// every token boundary, including those next to existing trivia, and both ends of the text
+    All,
+    /// the start of every significant token and the end of the text (= between every pair of
+    /// adjacent significant tokens)
+    Significant,
+    /// only the boundaries of the `w` significant tokens on either side of byte offset `at`
+    Near { at: usize, w: usize },
+}
+
+/// Exhaustive form of the trivia-insertion clause for one text that the CURRENT parser accepts
+/// without errors (`shape` = its trivia-free shape hash): every piece at every selected boundary.  Returns
+/// (insertions checked, first failures).
+fn insertion_sweep(lang: &Lang, src: &str, shape: u64, pieces: &[&str], which: Bounds, max_fails: usize) -> (u64, Vec<String>) {
+    let mut fails = Vec::new();
+    let toks: Vec<(u16, usize, usize)> = match catch_unwind(AssertUnwindSafe(|| lex(src).iter().map(tok3).collect())) {
+        Ok(t) => t,
+        Err(_) => return (0, vec!["lexer-panic".into()]),
+    };
+    let sig = significant(lang, src, &toks);
+    let mut bounds: Vec<usize> = match which {
+        Bounds::All => toks.iter().map(|t| t.1).collect(),
+        Bounds::Significant => toks.iter().filter(|t| !lang.is_trivia(t.0)).map(|t| t.1).collect(),
+        Bounds::Near { at, w } => {
+            let st: Vec<&(u16, usize, usize)> = toks.iter().filter(|t| !lang.is_trivia(t.0)).collect();
+            let i = st.iter().position(|t| t.2 > at).unwrap_or(st.len());
+            let mut b = Vec::new();
+            for t in &st[i.saturating_sub(w)..(i + w + 1).min(st.len())] {
+                b.push(t.1);
+                b.push(t.2);
+            }
+            b.sort();
+            b
+        }
+    };
+    if !matches!(which, Bounds::Near { .. }) {
+        bounds.push(src.len());
+    }
+    bounds.dedup();
+    let mut checked = 0u64;
+    for at in bounds {
+        for piece in pieces {
+            if fails.len() >= max_fails {
+                return (checked, fails);
+            }
+            let s2 = format!("{}{}{}", &src[..at], piece, &src[at..]);
+            let toks2: Vec<(u16, usize, usize)> = match catch_unwind(AssertUnwindSafe(|| lex(&s2).iter().map(tok3).collect())) {
+                Ok(t) => t,
+                Err(_) => {
+                    fails.push(format!("trivia-insertion lexer panic: {piece:?} at {at} in {src:?}"));
+                    continue;
+                }
+            };
+            if sig != significant(lang, &s2, &toks2) {
+                continue;
+            }
+            checked += 1;
+            match observe_light(&s2, true) {
+                Some(q) => {
+                    if let Some((a, b, m)) = &q.first_error {
+                        fails.push(format!("trivia-insertion introduces errors: {piece:?} inserted at offset {at} of the error-free text {src:?} gives {s2:?} with {} error(s), first {a}..{b} {m:?}", q.n_errors));
+                    } else if q.shape != shape {
+                        fails.push(format!("trivia-insertion changes shape: {piece:?} inserted at offset {at} of the error-free text {src:?} gives {s2:?} with another tree shape"));
+                    } else if !q.text_eq {
+                        fails.push(format!("trivia-insertion: tree text differs: {piece:?} inserted at offset {at} of {src:?}"));
+                    }
+                }
+                None => fails.push(format!("trivia-insertion parse panic: {piece:?} inserted at offset {at} of the error-free text {src:?} gives {s2:?}")),
+            }
+        }
+    }
+    (checked, fails)
 }
 
 // ------------------------------------------------------------------------------------------------
@@ -1968,6 +2081,7 @@ fn run_sweep(ctx: &Ctx, lang: &Lang, sw: &Sweep, progress: &str, out: &mut Out) 
     }
     let bsig: Vec<(u16, usize, usize)> = btoks.iter().map(tok3).collect();
     let (mut checked, mut triv, mut idx) = (0u64, 0u64, 1usize);
+    let mut accepted_variants = 0u64;
     for (pi, at) in positions.into_iter().enumerate() {
         let words: Vec<String> = if !all {
             table.clone()
@@ -1985,10 +2099,21 @@ fn run_sweep(ctx: &Ctx, lang: &Lang, sw: &Sweep, progress: &str, out: &mut Out) 
         for (label, text) in variants_at(&sw.base, &btoks, at, &words, all && full, full || !all) {
             write_progress(progress, idx, &label, &text);
             idx += 1;
-            let (f, _) = quick_check(lang, &text);
+            let (f, vp) = quick_check(lang, &text);
             checked += 1;
             if !f.is_empty() && fails.len() < 4 {
                 fails.push(format!("sweep {label}: {} text={}", f.join(","), hex(text.as_bytes())));
+            }
+            // a variant the CURRENT parser accepts without errors is a member of the pool of error-free
+            // inputs: every piece at the boundaries of the two significant tokens on either side of the
+            // injection point must leave its shape alone
+            if let Some(vp) = vp.filter(|p| p.errors.is_empty() && !text.is_empty()) {
+                accepted_variants += 1;
+                let (n, f) = insertion_sweep(lang, &text, vp.dump.shape, KW_TRIVIA, Bounds::Near { at: at.min(text.len()), w: 2 }, 1);
+                triv += n;
+                if fails.len() < 4 {
+                    fails.extend(f.into_iter().map(|m| format!("sweep {label} is accepted without errors, but {m}")));
+                }
             }
         }
         // trivia at this boundary of the error-free base: same shape, still error-free
@@ -2017,6 +2142,7 @@ fn run_sweep(ctx: &Ctx, lang: &Lang, sw: &Sweep, progress: &str, out: &mut Out) 
     }
     out.add("sweep_variants_checked", checked);
     out.add("sweep_trivia_checked", triv);
+    out.add("sweep_variants_accepted_error_free", accepted_variants);
     let notes = vec![format!("sweep snippet={} variants={} trivia={}", sw.name, checked, triv)];
     (fails, notes)
 }
@@ -2049,6 +2175,232 @@ fn gen_sweep(seed: u64, n: u64, r: &mut Rng, ctx: &Ctx) -> Sweep {
         base: SNIPPETS[i].1.to_string(),
         at,
     }
+}
+
+// ---- keywords in identifier positions ("kwpos") ---------------------------------------------------
+//
+// The trivia-insertion clause quantifies over the inputs WITHOUT SYNTAX ERRORS - by the verdict of the
+// parser under test, not by this harness's idea of the language.  A parser (or lexer) that starts to
+// accept a word in a position where it used to be rejected (a keyword as member name behind a `.`, as
+// variable / field / type / POU name, behind `#`, as the name of a named argument, ...) enlarges that
+// set, and the new members must be as insensitive to trivia as the old ones.  So the pool of error-free
+// texts is taken from what the CURRENT parser accepts: every identifier-shaped token (kind Ident, or the
+// word of a typed-literal prefix `w#`) of every base text below is a hole; every keyword of the real
+// `#[token]` table (as spelled there, lower-cased and in mixed case) is put into every hole, one at a
+// time.  Each candidate gets the lossless / tiling / error-range oracle; most are rejected with a
+// syntax error (fine: not in the pool); every candidate the parser accepts without errors must keep
+// its tree shape and stay error-free under insertion of each trivia piece between every pair of
+// adjacent tokens.  Base texts: the 24 sweep snippets plus compact texts for the identifier positions
+// the snippets do not have.
+
+/// `at` value of a kwpos case.
+pub const KW_POSITIONS: usize = usize::MAX - 1;
+
+const KW_EXTRA: &[(&str, &str)] = &[
+    ("kw-member", "PROGRAM _p _x := cfg.fld; _a.b.c := _d.e(_f).g; _h^.i[_j].k := THIS.l + SUPER.m(); END_PROGRAM"),
+    ("kw-hash-typed", "PROGRAM p x := #v + E#Red - w#5; #y := f(#t, _a := #b); END_PROGRAM"),
+    ("kw-named-args", "PROGRAM _p f(a := 1, b => c, d ?= e); _x := i(j := _k.l); END_PROGRAM"),
+    ("kw-stmts", "PROGRAM _p lbl: _x := 1; JMP tgt; FOR i := a TO b BY c DO d(); END_FOR; CASE s OF E.A, B: _g(); C..D: ; END_CASE; r ?= q; END_PROGRAM"),
+    ("kw-var-decl", "PROGRAM _p VAR a, b : T := c; d AT %IX0.1 : N.U; _e : ARRAY[lo.._hi] OF V; _f : W (l.._h); _g : STRING[n]; END_VAR END_PROGRAM"),
+    ("kw-types", "TYPE T : U; S : STRUCT a : V; _b : N.W := c; END_STRUCT; H : UNION w : X; END_UNION; I : POINTER TO Y; J : REF_TO Z; END_TYPE"),
+    ("kw-enums", "TYPE E : (A, B := x) := D; F : INT (C := 1, G); K : N.M (P, Q); END_TYPE"),
+    ("kw-pou-names", "FUNCTION f : T _f := _a; END_FUNCTION FUNCTION_BLOCK fb EXTENDS base IMPLEMENTS I1, N.I2 METHOD m : R _m := _a; END_METHOD ACTION act _x := _y; END_ACTION END_FUNCTION_BLOCK"),
+    ("kw-sizeof-adr", "PROGRAM _p _x := SIZEOF(T) + SIZEOF(v.w) + ADR(a) + REF(b); _y := _a.b^ + (c).d; END_PROGRAM"),
+    ("kw-config", "CONFIGURATION Cfg RESOURCE Res ON PLC TASK Fast(INTERVAL := T#10ms, PRIORITY := p); PROGRAM P1 WITH Tk : N.Main(a := b, c => d); END_RESOURCE VAR_ACCESS A1 : R2.P2.x : T READ_WRITE; END_VAR VAR_CONFIG R3.P3.y : U := v; END_VAR END_CONFIGURATION"),
+    ("kw-oop", "CLASS C EXTENDS B IMPLEMENTS I METHOD Run _x := 1; END_METHOD END_CLASS INTERFACE K EXTENDS J PROPERTY P : T GET END_GET END_PROPERTY END_INTERFACE USING A.U; NAMESPACE N.M END_NAMESPACE"),
+];
+
+/// Number of sweep snippets that serve as kwpos base texts in a quick run (rotating with the seed;
+/// the thorough tier takes all of them).
+const KW_SNIPPETS_PER_QUICK_RUN: usize = 3;
+
+fn kw_bases(seed: u64) -> Vec<(&'static str, &'static str)> {
+    let mut v: Vec<(&'static str, &'static str)> = KW_EXTRA.to_vec();
+    if SWEEP_FULL.load(std::sync::atomic::Ordering::Relaxed) {
+        v.extend(SNIPPETS.iter().copied());
+    } else {
+        for j in 0..KW_SNIPPETS_PER_QUICK_RUN {
+            v.push(SNIPPETS[(seed as usize * KW_SNIPPETS_PER_QUICK_RUN + j) % SNIPPETS.len()]);
+        }
+    }
+    v
+}
+
+fn ident_shaped(w: &str) -> bool {
+    let mut cs = w.chars();
+    matches!(cs.next(), Some(c) if c.is_ascii_alphabetic() || c == '_') && cs.all(|c| c.is_ascii_alphanumeric() || c == '_')
+}
+
+/// The identifier positions of `base`: byte ranges of the tokens that are identifier-shaped words
+/// and not keywords (kind Ident; the word of a typed-literal prefix `w#`).  Names that start with
+/// `_` are fillers: positions that are already a hole of another compact text.
+fn kw_holes(base: &str) -> Vec<(usize, usize)> {
+    lex(base)
+        .iter()
+        .filter(|t| !t.kind.is_trivia() && !t.kind.is_keyword())
+        .filter_map(|t| {
+            let (a, b) = (usize::from(t.range.start()), usize::from(t.range.end()));
+            let w = &base[a..b];
+            if w.starts_with('_') {
+                None // a filler name of the compact texts (its position is a hole of another text)
+            } else if ident_shaped(w) {
+                Some((a, b))
+            } else if w.ends_with('#') && ident_shaped(&w[..w.len() - 1]) {
+                Some((a, b - 1))
+            } else {
+                None
+            }
+        })
+        .collect()
+}
+
+/// Every word of the token table that is identifier-shaped (the keywords), as spelled in the table.
+fn kw_words(ctx: &Ctx) -> Vec<String> {
+    let mut w: Vec<String> = ctx.words.iter().filter(|w| ident_shaped(w)).cloned().collect();
+    w.sort();
+    w.dedup();
+    w
+}
+
+fn mixed_case(w: &str) -> String {
+    w.chars().enumerate().map(|(i, c)| if i % 2 == 0 { c.to_ascii_uppercase() } else { c.to_ascii_lowercase() }).collect()
+}
+
+/// Pieces inserted between every pair of adjacent tokens of an accepted candidate.
+const KW_TRIVIA: &[&str] = &[" ", "\n", "(* c *)", "/* c */"];
+const KW_TRIVIA_FULL: &[&str] = &[" ", "\n", "(* c *)", "/* c */", "\t", "\r\n", "(**)", " (* a (* n *) b *) ", "\n/* \u{e9} */\n"];
+
+/// Run the kwpos family on one base text (child process only): returns (failures, notes, the first
+/// accepted text that fails the insertion clause).
+///
+/// Every candidate is parsed (no panic, tree text = input, error ranges inside the text); a rotating
+/// eighth of them and every accepted one get the whole lossless oracle (`quick_check`).  Every
+/// candidate the parser accepts gets every piece at the boundaries of the hole token and of its two
+/// neighbours (that is where the acceptance of the word was decided).  The first accepted candidate
+/// of every distinct way the parser structured the text (pre-order sequence of node kinds), the first
+/// accepted candidate of a quarter of the holes (rotating with the seed) get every piece between
+/// EVERY pair of adjacent significant tokens; in the thorough tier the first three accepted
+/// candidates of every hole and every new structure get all nine pieces at EVERY token boundary and
+/// the others at the boundaries of the two significant tokens on either side of the hole.  The base
+/// text itself gets every piece at every token boundary.  The family stops at the sixth failure.
+fn run_kwpos(ctx: &Ctx, lang: &Lang, sw: &Sweep, progress: &str, out: &mut Out) -> (Vec<String>, Vec<String>, Option<String>) {
+    let mut fails: Vec<String> = Vec::new();
+    let mut witness: Option<String> = None;
+    let full = SWEEP_FULL.load(std::sync::atomic::Ordering::Relaxed);
+    let seed = SWEEP_SEED.load(std::sync::atomic::Ordering::Relaxed) as usize;
+    let pieces: &[&str] = if full { KW_TRIVIA_FULL } else { KW_TRIVIA };
+    let words = kw_words(ctx);
+    let holes = kw_holes(&sw.base);
+    write_progress(progress, 0, "base", &sw.base);
+    let (bf, base) = quick_check(lang, &sw.base);
+    if !bf.is_empty() {
+        fails.push(format!("kwpos base text {}: {}", sw.name, bf.join(",")));
+    }
+    let (mut cands, mut accepted, mut inserted, mut exhaustive, mut idx) = (0u64, 0u64, 0u64, 0u64, 1usize);
+    let mut accepted_words: std::collections::BTreeSet<String> = Default::default();
+    match base.as_ref() {
+        Some(b) if b.errors.is_empty() => {
+            let (n, f) = insertion_sweep(lang, &sw.base, b.dump.shape, pieces, Bounds::All, 2);
+            inserted += n;
+            if !f.is_empty() && witness.is_none() {
+                witness = Some(sw.base.clone());
+            }
+            fails.extend(f);
+        }
+        _ => {
+            out.count("kwpos_base_with_errors");
+            eprintln!("c12: kwpos base text {} is not error-free: {:?}", sw.name, base.as_ref().map(|b| &b.errors));
+        }
+    }
+    let mut structures: std::collections::HashSet<u64> = Default::default();
+    'family: for (hi, (a, b)) in holes.iter().copied().enumerate() {
+        let mut accepted_here = 0usize;
+        for (wi, w) in words.iter().enumerate() {
+            if fails.len() >= 6 {
+                break 'family;
+            }
+            // the spelling of the table always; lower case or mixed case for a slice of the words that
+            // rotates with the seed (the lexer ignores ASCII case) - thorough: all three
+            let mut spellings = vec![w.clone()];
+            let extra = (wi + hi + seed) % 8;
+            for (k, sp) in [w.to_ascii_lowercase(), mixed_case(w)].into_iter().enumerate() {
+                if (full || extra == k) && !spellings.contains(&sp) {
+                    spellings.push(sp);
+                }
+            }
+            for sp in &spellings {
+                let text = format!("{}{}{}", &sw.base[..a], sp, &sw.base[b..]);
+                if idx % 16 == 0 {
+                    write_progress(progress, idx, &format!("{sp} for {:?} at {a}", &sw.base[a..b]), &text);
+                }
+                idx += 1;
+                cands += 1;
+                let what = format!("kwpos {sp:?} for {:?} at {a}", &sw.base[a..b]);
+                let Some(l) = observe_light(&text, false) else {
+                    if fails.len() < 6 {
+                        fails.push(format!("{what}: parse-panic text={}", hex(text.as_bytes())));
+                    }
+                    continue;
+                };
+                if !(l.text_eq && l.errors_inside) && fails.len() < 6 {
+                    fails.push(format!("{what}: {} text={}", if l.text_eq { "error-range-outside-text" } else { "tree-text-differs-from-input" }, hex(text.as_bytes())));
+                }
+                if l.n_errors > 0 && (idx + seed) % 8 != 0 {
+                    continue;
+                }
+                let (f, p) = quick_check(lang, &text);
+                if !f.is_empty() && fails.len() < 6 {
+                    fails.push(format!("{what}: {} text={}", f.join(","), hex(text.as_bytes())));
+                }
+                let Some(p) = p else { continue };
+                if !p.errors.is_empty() {
+                    continue;
+                }
+                // accepted by the current parser: a member of the pool of error-free inputs
+                accepted += 1;
+                accepted_words.insert(w.clone());
+                write_progress(progress, idx, &format!("accepted {sp} for {:?} at {a}", &sw.base[a..b]), &text);
+                let mut h = Fnv::new();
+                for n in SyntaxNode::new_root(p.green.clone()).descendants() {
+                    h.u16(n.kind() as u16);
+                }
+                let new_structure = structures.insert(h.0);
+                let which = if full && (new_structure || accepted_here < 3) {
+                    exhaustive += 1;
+                    Bounds::All
+                } else if full {
+                    Bounds::Near { at: a, w: 2 }
+                } else if new_structure || (accepted_here == 0 && (seed + hi) % 4 == 0) {
+                    exhaustive += 1;
+                    Bounds::Significant
+                } else {
+                    Bounds::Near { at: a, w: 1 }
+                };
+                accepted_here += 1;
+                let (n, f) = insertion_sweep(lang, &text, p.dump.shape, pieces, which, 2);
+                inserted += n;
+                if !f.is_empty() {
+                    if witness.is_none() {
+                        witness = Some(text.clone());
+                    }
+                    if fails.len() < 6 {
+                        fails.extend(f.into_iter().map(|m| format!("kwpos {sp:?} in the place of {:?} at {a} is accepted without errors, but {m}", &sw.base[a..b])));
+                    }
+                }
+            }
+        }
+    }
+    out.add("kwpos_holes", holes.len() as u64);
+    out.add("kwpos_candidates", cands);
+    out.add("kwpos_accepted_error_free", accepted);
+    out.add("kwpos_accepted_checked_at_every_boundary", exhaustive);
+    out.add("kwpos_insertions_checked", inserted);
+    let aw: Vec<String> = accepted_words.into_iter().collect();
+    let notes = vec![
+        format!("kwpos base={} holes={} keywords={} candidates={} accepted={} exhaustive={} insertions={}", sw.name, holes.len(), words.len(), cands, accepted, exhaustive, inserted),
+        format!("kwpos accepted-keywords {}", if aw.is_empty() { "-".to_string() } else { aw.join(",") }),
+    ];
+    (fails, notes, witness)
 }
 
 // ---- nesting-guard family ------------------------------------------------------------------------
@@ -2746,6 +3098,25 @@ pub fn gen_case(seed: u64, n: u64, ctx: &Ctx) -> CaseInput {
         };
     }
     let k = k - SNIPPETS.len();
+    let kwb = kw_bases(seed);
+    if k < kwb.len() {
+        // one case per base text, in every run: every keyword in every identifier position
+        return CaseInput {
+            class: "kwpos",
+            note: format!("base={} every-keyword-in-every-identifier-position", kwb[k].0),
+            text: kwb[k].1.to_string(),
+            ins_seed,
+            sweep: Some(Sweep {
+                name: kwb[k].0.to_string(),
+                base: kwb[k].1.to_string(),
+                at: KW_POSITIONS,
+            }),
+            guard: None,
+            pre_fails: Vec::new(),
+            pre_notes: Vec::new(),
+        };
+    }
+    let k = k - kwb.len();
     let gcases = guard_cases();
     if k < gcases.len() {
         // the nesting-guard family, in every run: every recursive expression form x levels around the guard
@@ -2843,9 +3214,9 @@ fn run_child_case(exe: &std::path::Path, args: &Args, repo: &str, max_bytes: usi
         format!("{tmp}.progress")
     };
     let _ = std::fs::remove_file(&progress);
-    let deadline = if input.class == "sweep" { sub_timeout } else { timeout };
+    let deadline = if input.class == "sweep" || input.class == "kwpos" { sub_timeout } else { timeout };
     // snippets are tiny: a sweep child that needs more than 1 GiB is running away
-    let memcap = if input.class == "sweep" { args.extra_usize("sweepmemcap_mb", 1024) } else { args.extra_usize("memcap_mb", 3072) };
+    let memcap = if input.class == "sweep" || input.class == "kwpos" { args.extra_usize("sweepmemcap_mb", 1024) } else { args.extra_usize("memcap_mb", 3072) };
     // (a failure to *start* the child is a harness problem, not an observation: retry, then give up)
     let mut spawned = Err(std::io::Error::other("not started"));
     for attempt in 0..4 {
@@ -3069,9 +3440,20 @@ pub fn run(args: &Args) -> i32 {
         let mut input = gen_case(args.seed, n, &ctx);
         write_progress(&progress, 0, "own", &input.text);
         if let Some(sw) = input.sweep.clone() {
-            let (f, notes) = run_sweep(&ctx, &lang, &sw, &progress, &mut out);
-            input.pre_fails = f;
-            input.pre_notes = notes;
+            if sw.at == KW_POSITIONS {
+                let (f, notes, witness) = run_kwpos(&ctx, &lang, &sw, &progress, &mut out);
+                input.pre_fails = f;
+                input.pre_notes = notes;
+                if let Some(w) = witness {
+                    // the case's own text becomes the accepted text that fails the clause (the failing input)
+                    input.note = format!("{} FAILING-INPUT-IS-THE-CASE-TEXT", input.note);
+                    input.text = w;
+                }
+            } else {
+                let (f, notes) = run_sweep(&ctx, &lang, &sw, &progress, &mut out);
+                input.pre_fails = f;
+                input.pre_notes = notes;
+            }
             write_progress(&progress, usize::MAX, "own", &input.text);
         }
         if input.guard.is_some() {
@@ -3124,7 +3506,7 @@ pub fn run(args: &Args) -> i32 {
     // `childjobs` at a time ahead of the main loop; their results are merged in case order below.
     let mut prefetched: std::collections::HashMap<u64, Result<ChildOutcome, String>> = std::collections::HashMap::new();
     {
-        let family: Vec<(u64, CaseInput)> = args.case_numbers().into_iter().map(|n| (n, gen_case(args.seed, n, &ctx))).take_while(|(n, c)| c.guard.is_some() || (*n as usize) < 512).filter(|(_, c)| c.guard.is_some()).collect();
+        let family: Vec<(u64, CaseInput)> = args.case_numbers().into_iter().map(|n| (n, gen_case(args.seed, n, &ctx))).take_while(|(n, c)| c.guard.is_some() || (*n as usize) < 512).filter(|(_, c)| c.guard.is_some() || c.class == "kwpos").collect();
         let jobs = args.extra_usize("childjobs", 4).max(1);
         let next = std::sync::atomic::AtomicUsize::new(0);
         let results = std::sync::Mutex::new(Vec::new());
@@ -3143,7 +3525,7 @@ pub fn run(args: &Args) -> i32 {
     for n in args.case_numbers() {
         let input = gen_case(args.seed, n, &ctx);
         out.count("cases");
-        if input.class == "deep" || input.class == "sweep" {
+        if input.class == "deep" || input.class == "sweep" || input.class == "kwpos" {
             // child process: a stack overflow (SIGSEGV / abort), an allocation failure under the memory cap
             // or a hang is an observable, not a harness crash.  The child reports the (sub-)input it is
             // working on through a progress file; no progress within the deadline = non-termination.
